@@ -497,7 +497,7 @@ class Input(object):
         #     self.unlocking_script = script_add_locktime_csv(self.locktime_csv, self.unlocking_script)
         return True
 
-    def verify(self, transaction_hash):
+    def verify(self, transaction_hash, transaction_hashes=None):
         """
         Verify input with provided transaction hash, check if signatures matches public key.
 
@@ -505,6 +505,8 @@ class Input(object):
 
         :param transaction_hash: Double SHA256 Hash of Transaction signature
         :type transaction_hash: bytes
+        :param transaction_hashes: Transaction hashes per hash type, for signatures with another hash type then the hash type of this input
+        :type transaction_hashes: dict
 
         :return bool: True if enough signatures provided and if all signatures are valid
         """
@@ -530,7 +532,10 @@ class Input(object):
                 return False
             key = self.keys[key_n]
             sig = self.signatures[sig_n]
-            if verify(transaction_hash, sig, key):
+            sig_hash = transaction_hash
+            if transaction_hashes and sig.hash_type in transaction_hashes:
+                sig_hash = transaction_hashes[sig.hash_type]
+            if verify(sig_hash, sig, key):
                 sigs_verified += 1
                 sig_n += 1
             key_n += 1
@@ -1699,13 +1704,18 @@ class Transaction(object):
         for inp in self.inputs:
             try:
                 transaction_hash = self.signature_hash(inp.index_n, inp.hash_type, inp.witness_type)
+                # A signature commits to the transaction hash selected by its own hash type
+                transaction_hashes = {}
+                for hash_type in set([s.hash_type for s in inp.signatures
+                                      if s.hash_type is not None and s.hash_type != inp.hash_type]):
+                    transaction_hashes[hash_type] = self.signature_hash(inp.index_n, hash_type, inp.witness_type)
             except TransactionError as e:
                 _logger.info("Could not create transaction hash. Error: %s" % e)
                 return False
             if not transaction_hash:
                 _logger.info("Need at least 1 key to create segwit transaction signature")
                 return False
-            self.verified = inp.verify(transaction_hash)
+            self.verified = inp.verify(transaction_hash, transaction_hashes)
             if not self.verified:
                 return False
 
